@@ -69,12 +69,25 @@ oracle_fail(const std::string& ctx, const std::string& what)
   if (g_fails <= 40)
     std::fprintf(g_orc, "ORACLE-FAIL %s | %s\n", what.c_str(), ctx.c_str());
 }
+// the text is constant per key (stable replay names); where it was first seen goes to an INFO line
 static void
-known(const std::string& key, const std::string& text)
+known(const std::string& key, const std::string& text, const std::string& first_seen = "")
 {
   if (g_known_emitted.insert(key).second)
-    std::fprintf(g_orc, "KNOWN-CANDIDATE %s %s\n", key.c_str(), text.c_str());
+    {
+      std::fprintf(g_orc, "KNOWN-CANDIDATE %s %s\n", key.c_str(), text.c_str());
+      if (!first_seen.empty())
+        std::fprintf(g_orc, "INFO %s first seen at: %s\n", key.c_str(), first_seen.c_str());
+    }
 }
+#define KNOWN_RANGE(ctx)                                                                                                          \
+  known("range:view-tang-unchecked",                                                                                              \
+        "ProjDataFromStream::get_offset / ProjDataInMemory::get_index check segment, axial and TOF ranges but not view / "      \
+        "tangential position: an out-of-range request is accepted and reads/overwrites ANOTHER bin. Repro: any ProjDataFromStream " \
+        "or ProjDataInMemory with views 0..V-1 and >= 2 axial positions in segment 0 (AxialPos_View order): "                    \
+        "set_bin_value(Bin(0, V, 0, t, 0, x)) does not throw and changes get_bin_value(Bin(0, 0, 1, t, 0)); likewise "           \
+        "tangential position max+1 lands on the next view",                                                                       \
+        ctx)
 
 static std::string
 num(double x)
@@ -229,7 +242,7 @@ diff_answer(const Case& c, const Bytes& before, const Bytes& after)
           slots.push_back(k);
           const double v = c.decode(after, k);
           const long long iv = (v == static_cast<long long>(v)) ? static_cast<long long>(v) : 999983;
-          cs = (cs + ((k + 1) % 1000003) * ((iv + 3) % 1000003)) % 1000003;
+          cs = (cs + ((k + 1) % 1000003) * ((iv + 1000) % 1000003)) % 1000003;
         }
     }
   for (std::size_t a = 0; a < n; ++a)
@@ -408,8 +421,9 @@ do_write(Case& c, vh::Rng& rng, const std::string& op, F call, const std::vector
             known("flush:set_bin_value-no-flush",
                   "ProjDataFromStream::set_bin_value returns without flushing the stream (class documentation: every set_* flushes): "
                   "an independent std::ifstream opened after the call returned does not see the written value until the writer "
-                  "is flushed/closed; first seen at: "
-                      + ctx);
+                  "is flushed/closed. Repro: ProjDataFromStream over std::fstream on a zero-filled file, set_bin_value(Bin(0,1,1,0,0,7.f)), "
+                  "read the file with a new std::ifstream: all bytes still 0 (set_viewgram/set_sinogram/set_segment are visible at once)",
+                  ctx);
           else
             oracle_fail(ctx, "written values not visible to an independent reader of the file when the write call returned");
         }
@@ -436,10 +450,7 @@ do_write(Case& c, vh::Rng& rng, const std::string& op, F call, const std::vector
       if (status == 0 || changed)
         {
           if (oor_kind == "view" || oor_kind == "tang")
-            known("range:view-tang-unchecked",
-                  "ProjDataFromStream::get_offset / ProjDataInMemory::get_index check segment, axial and TOF ranges but not view / "
-                  "tangential position: an out-of-range request is accepted and reads/overwrites ANOTHER bin; first seen at: "
-                      + ctx);
+            KNOWN_RANGE(ctx);
           else
             oracle_fail(ctx, "out-of-range (" + oor_kind + ") write request was not rejected" + (changed ? " and changed the data" : ""));
           // the reference no longer describes the data: resynchronise from the implementation
@@ -496,10 +507,7 @@ do_read(Case& c, const std::string& op, F call, const std::vector<Key>& bins, bo
       if (!threw)
         {
           if (oor_kind == "view" || oor_kind == "tang")
-            known("range:view-tang-unchecked",
-                  "ProjDataFromStream::get_offset / ProjDataInMemory::get_index check segment, axial and TOF ranges but not view / "
-                  "tangential position: an out-of-range request is accepted and reads/overwrites ANOTHER bin; first seen at: "
-                      + ctx);
+            KNOWN_RANGE(ctx);
           else
             oracle_fail(ctx, "out-of-range (" + oor_kind + ") read request was not rejected");
         }
@@ -585,12 +593,18 @@ bins_all(const Case& c)
   return r;
 }
 
+// small integers (exact in every on-disk type, scale factor stays 1); negative ones unless the on-disk type is unsigned
+static bool g_signed_values = true;
 static std::vector<float>
 random_values(vh::Rng& rng, std::size_t n)
 {
   std::vector<float> v(n);
   for (auto& x : v)
-    x = static_cast<float>(rng.range(0, 9) == 0 ? 0 : rng.range(1, 200));
+    {
+      x = static_cast<float>(rng.range(0, 9) == 0 ? 0 : rng.range(1, 200));
+      if (g_signed_values && x != 0 && rng.range(0, 2) == 0)
+        x = -x;
+    }
   return v;
 }
 
@@ -884,7 +898,7 @@ probe_flush(const std::string& outdir)
   shared_ptr<Scanner> scanner = vh::make_scanner(8, 2);
   shared_ptr<ProjDataInfo> pdi = vh::make_pdi(scanner, 1, 0, 4, 3, false, 0);
   shared_ptr<ExamInfo> exam(new ExamInfo(ImagingModality::PT));
-  const std::string fn = outdir + "/c02_flushprobe.dat";
+  const std::string fn = outdir + "/c02_" + std::to_string(static_cast<long>(getpid())) + "_flushprobe.dat";
   {
     std::ofstream f(fn.c_str(), std::ios::binary | std::ios::trunc);
     const std::vector<char> z(4096, 0);
@@ -1473,33 +1487,53 @@ header_exam_info_extras(const std::string& outdir)
 {
   shared_ptr<Scanner> scanner = vh::make_scanner(8, 2);
   shared_ptr<ProjDataInfo> pdi = vh::make_pdi(scanner, 1, 1, 4, 3, false, 0);
+  const std::string pid = std::to_string(static_cast<long>(getpid()));
   for (int which = 0; which < 2; ++which)
     {
       shared_ptr<ExamInfo> exam(new ExamInfo(ImagingModality::PT));
+      {
+        RadionuclideDB db;
+        exam->set_radionuclide(db.get_radionuclide(ImagingModality(ImagingModality::PT), "^18^Fluorine"));
+        // (a frame definition is needed too: TimeFrameDefinitions::operator== throws std::out_of_range when the
+        //  right-hand side has fewer frames, and the header reader always creates one frame)
+        TimeFrameDefinitions tf;
+        tf.set_num_time_frames(1);
+        tf.set_time_frame(1, 0., 60.);
+        exam->set_time_frame_definitions(tf);
+      }
       if (which == 0)
         exam->start_time_in_secs_since_1970 = 1.0e9;
       else
         exam->set_calibration_factor(2.5f);
-      const std::string hs = outdir + "/c02_examinfo" + std::to_string(which) + ".hs";
-      bool equal = false, threw = false;
+      const std::string base = outdir + "/c02_" + pid + "_examinfo" + std::to_string(which);
+      bool equal = false, threw = false, field_ok = false;
       try
         {
           {
-            ProjDataInterfile pd(exam, pdi, hs, std::ios::in | std::ios::out | std::ios::trunc);
+            ProjDataInterfile pd(exam, pdi, base + ".hs", std::ios::in | std::ios::out | std::ios::trunc);
             pd.fill(1.f);
           }
-          shared_ptr<ProjData> rb = ProjData::read_from_file(hs);
+          shared_ptr<ProjData> rb = ProjData::read_from_file(base + ".hs");
           equal = rb->get_exam_info() == *exam;
+          field_ok = which == 0 ? std::fabs(rb->get_exam_info().start_time_in_secs_since_1970 - 1.0e9) <= .5
+                                : std::fabs(rb->get_exam_info().get_calibration_factor() - 2.5f) <= 2.5e-3f;
+        }
+      catch (std::exception& e)
+        {
+          std::fprintf(g_orc, "INFO hdrx exception: %s\n", e.what());
+          threw = true;
         }
       catch (...)
         {
           threw = true;
         }
+      std::remove((base + ".hs").c_str());
+      std::remove((base + ".s").c_str());
       ++g_checks;
       emit(std::string("hdrx ") + (which == 0 ? "start-time" : "calibration-factor"), "done");
       if (threw)
         oracle_fail("hdrx", "header round trip threw");
-      else if (!equal)
+      else if (!field_ok)
         {
           if (which == 0)
             known("header:start-time-not-written",
@@ -1511,6 +1545,9 @@ header_exam_info_extras(const std::string& outdir)
                   "write_basic_interfile_PDFS_header does not write 'calibration factor': ExamInfo calibration factor 2.5 is -1 after "
                   "ProjDataInterfile -> ProjData::read_from_file, so ExamInfo::operator== is false (the image header writer does write it)");
         }
+      else if (!equal)
+        oracle_fail("hdrx", std::string("exam information differs after the header round trip although ")
+                                + (which == 0 ? "the start time" : "the calibration factor") + " was read back");
     }
 }
 
@@ -1532,7 +1569,7 @@ main(int argc, char** argv)
 
   probe_flush(outdir);
 
-  const int ncases = thorough ? 1600 : 160;
+  const int ncases = thorough ? 3000 : 160;
   const int len = thorough ? 80 : 30;
   static const char* backs[] = { "ss", "fs", "if", "mem", "ss", "fs", "if", "ss" };
   int done = 0, tries = 0;
@@ -1552,6 +1589,7 @@ main(int argc, char** argv)
         }
       if (!ok)
         continue;
+      g_signed_values = c.backing == "mem" || c.type.id != NumericType::USHORT;
       probe_range_checks(c);
       write_cfg(c);
       run_history(c, rng, len);
@@ -1571,12 +1609,7 @@ main(int argc, char** argv)
         }
     }
   header_exam_info_extras(outdir);
-  std::remove((outdir + "/c02_flushprobe.dat").c_str());
-  for (int w = 0; w < 2; ++w)
-    {
-      std::remove((outdir + "/c02_examinfo" + std::to_string(w) + ".hs").c_str());
-      std::remove((outdir + "/c02_examinfo" + std::to_string(w) + ".s").c_str());
-    }
+  std::remove((outdir + "/c02_" + std::to_string(static_cast<long>(getpid())) + "_flushprobe.dat").c_str());
 
   std::fprintf(g_orc, "INFO cases=%d", done);
   for (auto& kv : g_hist)
